@@ -43,8 +43,20 @@ fn c03_execution_stays_within_limits() {
             let is = InstructionStream::try_from(code.as_slice()).unwrap();
             let mut vm = VM::new(is, cfg, LazyWatchdog.in_rc()).unwrap();
             let _ = vm.execute();
+            let jt = vm.jump_targets().clone();
+            let res = vm.consume();
+            for st in &res.states {
+                for ip in 0..code.len() as u32 {
+                    let c = st.visited_instructions().visit_count(ip).unwrap_or(0);
+                    // D14 (known finding): the first instruction of a forked thread (a JUMPDEST that is the target of a
+                    // JUMPI) is executed without the visit-limit check, so it can exceed the limit by exactly one
+                    let jumpi_target = code[ip as usize] == 0x5b && code.windows(3).any(|w| w[0] == 0x60 && w[1] as u32 == ip && w[2] == 0x57);
+                    let ob = if c == iters + 1 && jumpi_target { "limits.visit_count_within_iteration_limit.forked_jumpdest_plus_one" } else { "limits.visit_count_within_iteration_limit" };
+                    if c > iters { witness("C03", ob, format!("{name} code={code:02x?} iterations={iters} ip={ip}"), format!("{c}"), format!("<= {iters}")); }
+                }
+            }
             for ip in 0..code.len() as u32 {
-                if let Ok(c) = vm.jump_targets().cond_jump_count(ip) {
+                if let Ok(c) = jt.cond_jump_count(ip) {
                     if c > forks { witness("C03", "limits.fork_to.preserves_fork_bound", format!("{name} forks={forks} target={ip}"), format!("{c}"), format!("<= {forks}")); }
                 }
             }
